@@ -103,7 +103,9 @@ def make_case(tier, seed, index):
                 # an object that is used as constructed, without read_device_info() (model-specific tables not applied)
                 "no_info": rnd.random() < 0.12,
                 # a lossy path to this inverter: every n-th transmission to it gets no answer (retransmitted once)
-                "lose": rnd.choice([None, None, None, 3, 4, 7])}
+                "lose": rnd.choice([None, None, None, 3, 4, 7]),
+                # each object has its own timeout and retry budget
+                "timeout": rnd.choice([1, 1, 0.5, 2]), "retries": rnd.choice([1, 1, 2, 0, 3])}
     if index % 5 == 1:
         ka = kb = rnd.choice(["DT", "DT1", "DTtcp", "ET205", "ET205tcp"])
         if rnd.random() < 0.5:
@@ -200,7 +202,7 @@ def _build(goodwe, spec, host):
         dev = devices.make_et(serial=serial, caps=caps, seed=seed, fill="hash", comm_addr=None, restrict=False)
         if kind == "ETv1":
             dev.valid = devices.et_valid_ranges(caps)
-        inv = goodwe.ET(host, C.port_of(tr), ca, 1, 1)
+        inv = goodwe.ET(host, C.port_of(tr), ca, spec.get("timeout", 1), spec.get("retries", 1))
         if ca:
             dev.comm_addr = ca
         bases = [47515, 47519, 47523, 47527] if kind == "ETv1" else [47547, 47553, 47559, 47565]
@@ -214,7 +216,7 @@ def _build(goodwe, spec, host):
     elif kind.startswith("DT"):
         serial = "93000DSN000W0001" if kind == "DT1" else "9010KDTU000W0001"
         dev = devices.make_dt(serial=serial, seed=seed, fill="hash", comm_addr=None, restrict=False)
-        inv = goodwe.DT(host, C.port_of(tr), ca, 1, 1)
+        inv = goodwe.DT(host, C.port_of(tr), ca, spec.get("timeout", 1), spec.get("retries", 1))
         if ca:
             dev.comm_addr = ca
         dev.set_bytes(40313, bytes([23, 5, 17, 10, 11, 12]))
@@ -226,7 +228,7 @@ def _build(goodwe, spec, host):
         dev = devices.make_es(seed=seed, fill="hash", firmware="2525E" if v2 else "14147", eco_v2_modbus=v2)
         dev.comm_addr = None
         dev.settings_block[66:68] = b"\x00\x03"
-        inv = goodwe.ES(host, C.port_of(tr), ca, 1, 1)
+        inv = goodwe.ES(host, C.port_of(tr), ca, spec.get("timeout", 1), spec.get("retries", 1))
         if ca:
             dev.comm_addr = ca
         bases = [47547, 47553, 47559, 47565] if v2 else [1793, 1797, 1801, 1805]
